@@ -174,6 +174,9 @@ func init() {
 	add(t("GET.withfields", "GET", FRead, w("GET"), k("fleet"), id("truck1"), w("WITHFIELDS")))
 	add(t("GET.object", "GET", FRead, w("GET"), k("fleet"), id("area1"), w("OBJECT")))
 	add(t("GET.point", "GET", FRead, w("GET"), k("fleet"), id("truck2"), w("WITHFIELDS"), w("POINT")))
+	add(t("GET.point.featz", "GET", FRead, w("GET"), k("fleet"), id("featz"), w("POINT")))
+	add(t("GET.point.gcz", "GET", FRead, w("GET"), k("fleet"), id("gcz"), w("WITHFIELDS"), w("POINT")))
+	add(t("SCAN.points", "SCAN", FRead, w("SCAN"), k("fleet"), w("POINTS")))
 	add(t("GET.bounds", "GET", FRead, w("GET"), k("fleet"), id("area1"), w("BOUNDS")))
 	add(t("GET.hash", "GET", FRead, w("GET"), k("fleet"), id("truck1"), w("HASH"), in("9")))
 	add(t("GET.string", "GET", FRead, w("GET"), k("fleet"), id("str1")))
@@ -648,6 +651,8 @@ func StateCommands(name string) [][]string {
 		{"SET", "fleet", "area1", "FIELD", "info", `{"a":[1,2],"b":"c"}`, "OBJECT", PolyJSON},
 		{"SET", "fleet", "feat1", "OBJECT", FeatJSON},
 		{"SET", "fleet", "box1", "BOUNDS", "33.1", "-112.4", "33.2", "-112.3"},
+		{"SET", "fleet", "featz", "FIELD", "speed", "33", "OBJECT", `{"type":"Feature","geometry":{"type":"Point","coordinates":[-112.23,33.47,77]},"properties":{"k":"v"}}`},
+		{"SET", "fleet", "gcz", "OBJECT", `{"type":"GeometryCollection","geometries":[{"type":"Point","coordinates":[-112.21,33.48,12.5]}]}`},
 		{"SET", "fleet", "str1", "STRING", "hello"},
 		{"SET", "fleet", "h1", "FIELD", "flag", "true", "FIELD", "nn", "null", "HASH", "9tbnthxzr"},
 		{"SET", "fleet", "jdoc", "STRING", `{"a":{"b":1},"s":"x","esc":"q\"b\\s \u0001\u0007\u001b\u007f\n\t é世 \udb40\udc01\u2028<&>"}`},
